@@ -1621,14 +1621,17 @@ class UNIXSocketStream(_RawSocketMixin, abc.UNIXSocketStream):
         fdarray = array.array("i", filenos)
         await AsyncIOBackend.checkpoint()
         with self._send_guard:
-            while True:
+            # The file descriptors go out with the first part of the message; whatever
+            # did not fit into the socket buffer then is sent as plain data
+            view = memoryview(message)
+            ancdata = [(socket.SOL_SOCKET, socket.SCM_RIGHTS, fdarray)]
+            while view:
                 try:
-                    # The ignore can be removed after mypy picks up
-                    # https://github.com/python/typeshed/pull/5545
-                    self._raw_socket.sendmsg(
-                        [message], [(socket.SOL_SOCKET, socket.SCM_RIGHTS, fdarray)]
-                    )
-                    break
+                    if ancdata:
+                        bytes_sent = self._raw_socket.sendmsg([view], ancdata)
+                        ancdata = []
+                    else:
+                        bytes_sent = self._raw_socket.send(view)
                 except BlockingIOError:
                     await self._wait_until_writable(loop)
                 except OSError as exc:
@@ -1636,6 +1639,8 @@ class UNIXSocketStream(_RawSocketMixin, abc.UNIXSocketStream):
                         raise ClosedResourceError from None
                     else:
                         raise BrokenResourceError from exc
+                else:
+                    view = view[bytes_sent:]
 
 
 class TCPSocketListener(abc.SocketListener):
